@@ -226,6 +226,22 @@ PROPS = {
         "technique": "invariant monitor on hooked (in-package) state",
         "jobs": [{"pkg": "motion", "test": "TestVerif_C15", "shards": (16, 16), "timeout": (300, 2400), "require": ["frames", "threshold_recomputations", "reseeds", "recording_starts_checked", "ffc_frames"]}],
     },
+    "C16": {
+        "title": "Snapshots taken concurrently with processing are whole frames; no data races",
+        "level": "exploration",
+        "rule": "Under -race: real handleConn (2-5 successive connections per repetition, 500 (thorough 3000) uniform-valued frames each, value = f(id), fed at full speed / in bursts / paced) while 1-8 goroutines call "
+                "service.TakeSnapshot / TakeTestRecording / CameraInfo in loops with PRNG pauses, plus one request forced exactly between publication of a new processor and its first frame; GOMAXPROCS in {1,2,4,16}; Gosched/us sleeps at hooks. "
+                "Oracles: (a) every race-detector report (reduced to the unordered pair of top-most repository frames); (b) each returned image is uniform, is a received frame, id >= last frame completed at call time on the current connection, "
+                "id <= last frame fully received at return, never a never-received (all-zero) image; (c) continuous files and motion files equal the reference pipeline's prediction, every other file is a 21-frame test recording, all frames processed (bounded progress). "
+                "A repetition is a case; evidence lists requests per kind and (kind, frame-loop phase) pairs seen.",
+        "assumptions": COMMON_ASSUME + ["interleavings are sampled, not enumerated: 'no race observed in K executions', not race freedom", "pre-trigger ring capacity >= 2 (with capacity 1 'previous' and 'current' slot coincide; outside the quantifier over schedules)",
+                                        "a watchdog firing is reported as a violation of the bounded-progress restatement only for this job (generous 10-50 min limit for a run of seconds)"],
+        "level_text": "Go race detector + interval check on an event log with one atomic logical clock (request call/return at the client boundary, frame received/processed at handleConn hooks) + offline comparison of the recordings with the request-free prediction.",
+        "level_note": "A porcupine register model would also demand monotonic reads across requests, which the property does not state; the direct interval check is exactly the property and linear with unique ids.",
+        "technique": "Go race detector + interval (freshness) checker over a logical-clock event log",
+        "jobs": [{"pkg": "recorder-main", "test": "TestVerif_C16", "race": True, "shards": (6, 16), "gomaxprocs": [1, 2, 4, 16, 16, 3], "timeout": (900, 3000), "hang_is_violation": True,
+                  "require": ["snapshots_checked", "requests_TakeSnapshot", "requests_TakeTestRecording", "requests_CameraInfo", "motion_recordings_matched", "test_recordings_found"]}],
+    },
     "C17": {
         "title": "Continuous recorder tiles the stream; a test recording is 21 consecutive frames",
         "level": "exploration",
